@@ -1,4 +1,4 @@
-import Aiorpcx.C11.Stack
+import Aiorpcx.C11.NotEarly
 import Aiorpcx.Facts.C11
 /-!
 # C11 — property theorems for `timeout_after` / `timeout_at` / `ignore_after` / `ignore_at`
@@ -59,25 +59,6 @@ be delivered after its block has exited. -/
 
 /-! ## Interruption happens at the deadline, not earlier -/
 
-theorem doSleep_K (s : TS) (d : Nat) (h : Kk s) : Kk (doSleep s d).2 ∧ s.now ≤ (doSleep s d).2.now := by
-  have hw : Kk (wakeUp s d).2 ∧ s.now ≤ (wakeUp s d).2.now := by
-    refine ⟨?_, by simp [wakeUp]; omega⟩
-    intro m hm; have := h m (by simpa [wakeUp] using hm); simp [wakeUp]; omega
-  have ht : ∀ a, Kk (timerFire s a).2 ∧ s.now ≤ (timerFire s a).2.now := by
-    intro a
-    refine ⟨?_, (clampT_ge _ _).1⟩
-    intro m hm; simp [timerFire] at hm; subst hm; exact (clampT_ge _ _).2
-  have hc : ∀ c, Kk (cancelFire s c).2 ∧ s.now ≤ (cancelFire s c).2.now := by
-    intro c
-    refine ⟨?_, (clampT_ge _ _).1⟩
-    intro m hm
-    have := h m (by simpa [cancelFire] using hm)
-    have := (clampT_ge s.now c).1
-    simp [cancelFire]; omega
-  unfold doSleep
-  repeat' split
-  all_goals first | exact hw | exact ht _ | exact hc _
-
 /-- **A sleep cannot run past an armed deadline.**  If a timer is armed for `a`, a suspension
 that would last beyond `a` ends exactly at `a` (or at once if `a` is already past) with a
 cancellation attributed to `a` — unless an external cancel request comes strictly first. -/
@@ -115,86 +96,6 @@ theorem early_sleep_unaffected (s : TS) (d : Nat)
       have h5 : ¬ clampT s.now c ≤ s.now + ↑d := by omega
       simp only []
       split <;> simp [wakeUp, h5, h6, h1, h2]
-
-theorem unset_K (s : TS) (h : Kk s) : Kk (unset s).2.2 := by
-  intro m hm; exact h m (by simpa [unset] using hm)
-
-theorem aexit_K (fixed ig : Bool) (self : Int) (r : Res) (s : TS) (h : Kk s) :
-    Kk (aexit fixed ig self r s).2.2 ∧ (aexit fixed ig self r s).2.2.now = s.now := by
-  have h1 := unset_K s h
-  have h2 : (unset s).2.2.now = s.now := by simp [unset]
-  unfold aexit
-  simp only
-  repeat' split
-  all_goals exact ⟨h1, h2⟩
-
-/-- a block reports expiry only if its marker is its own deadline -/
-theorem aexit_expired (fixed ig : Bool) (self : Int) (r : Res) (s : TS)
-    (h : (aexit fixed ig self r s).2.1 = true) :
-    s.marker = some self ∧ isCancelFamily r = true ∧
-    (aexit fixed ig self r s).1 = (if ig then none else some .taskTimeout) := by
-  unfold aexit unset at *
-  simp only at *
-  repeat' split at h
-  all_goals simp_all
-
-/-- Every block exit recorded in the trace with `expired = true` happened at or after the
-block's deadline (**not earlier**), and left the block as `TaskTimeout` — or quietly for the
-ignore forms. -/
-def ExitOK : Ev → Prop
-  | .exit d r expired t => expired = true → d ≤ t ∧ (r = some .taskTimeout ∨ r = none)
-
-theorem run_K (fixed : Bool) (p : Prog) : ∀ (s : TS), Kk s →
-    Kk (run fixed p s).2.1 ∧ s.now ≤ (run fixed p s).2.1.now ∧
-    ∀ ev ∈ (run fixed p s).2.2, ExitOK ev := by
-  induction p with
-  | skip => intro s h; simp [run, h]
-  | sleep d => intro s h; simp only [run]; exact ⟨(doSleep_K s d h).1, (doSleep_K s d h).2, by simp⟩
-  | raise e => intro s h; simp [run, h]
-  | seq a b iha ihb =>
-    intro s h
-    simp only [run]
-    have ha := iha s h
-    split
-    · exact ha
-    · have hb := ihb (run fixed a s).2.1 ha.1
-      refine ⟨hb.1, Int.le_trans ha.2.1 hb.2.1, ?_⟩
-      intro ev hev
-      rcases List.mem_append.1 hev with h1 | h1
-      · exact ha.2.2 ev h1
-      · exact hb.2.2 ev h1
-  | tryCatch b cs hd ihb ihh =>
-    intro s h
-    simp only [run]
-    have hb := ihb s h
-    split
-    · split
-      · have hh := ihh (run fixed b s).2.1 hb.1
-        refine ⟨hh.1, Int.le_trans hb.2.1 hh.2.1, ?_⟩
-        intro ev hev
-        rcases List.mem_append.1 hev with h1 | h1
-        · exact hb.2.2 ev h1
-        · exact hh.2.2 ev h1
-      · exact hb
-    · exact hb
-  | block ig rel t body ih =>
-    intro s h
-    simp only [run]
-    have he : Kk (enter s (if rel then s.now + t else t)) := by intro m hm; simp [enter] at hm
-    have hb := ih _ he
-    have hx := aexit_K fixed ig (if rel then s.now + t else t) (run fixed body (enter s (if rel then s.now + t else t))).1 _ hb.1
-    have hn : (enter s (if rel then s.now + t else t)).now = s.now := by simp [enter]
-    refine ⟨hx.1, by rw [hx.2]; omega, ?_⟩
-    intro ev hev
-    rcases List.mem_append.1 hev with h1 | h1
-    · exact hb.2.2 ev h1
-    · simp only [List.mem_singleton] at h1
-      subst h1
-      intro hexp
-      obtain ⟨hm, _, hr⟩ := aexit_expired _ _ _ _ _ hexp
-      refine ⟨?_, ?_⟩
-      · rw [hx.2]; exact hb.1 _ hm
-      · rw [hr]; cases ig <;> simp
 
 /-- **not earlier, and reported as TaskTimeout / quietly**: in every run from a task whose marker
 is clean, every block that reports `expired` exited no earlier than its deadline, raising
